@@ -465,6 +465,15 @@ where
             res = txs_receiver.receive() => res,
         };
         let tx = res.expect("receiving tx");
+        // the wire format admits payloads up to the MTU, a slice only reserves room for
+        // transactions of at most `MAX_TRANSACTION_SIZE` bytes, drop anything larger
+        if tx.0.len() > MAX_TRANSACTION_SIZE {
+            warn!(
+                "dropping transaction of {} bytes, above the size limit",
+                tx.0.len()
+            );
+            continue;
+        }
         tx_count += 1;
         wincode::serialize_into(&mut buffer, &tx)
             .expect("serializing transaction into buffer should not fail");
